@@ -134,8 +134,14 @@ def s_est(draw):
     d = 10 ** draw(st.floats(-3, 1.5))
     s0 = d / draw(st.floats(1.2, 20))
     s1 = s0 * draw(st.one_of(st.just(1.0), st.floats(0.2, 5)))
-    return {"mu0": draw(st.one_of(st.just(0.0), st.floats(-10, 10).map(lambda v: v * d))), "d": d, "s0": s0, "s1": s1, "M": draw(st.sampled_from(ORD)),
-            "beta": draw(st.floats(-5, 5)) * d}
+    M = draw(st.sampled_from(ORD))
+    rel = draw(st.sampled_from([None, None, None, "s0=(M-1)*s1", "s1=(M-1)*s0", "s0=s1*2"]))
+    if rel and M > 2:
+        # exact numeric relations between the two sigmas and the order (powers of two, so that squares and square roots are exact)
+        base = 2.0 ** int(np.floor(np.log2(d / (8 * (M - 1)))))
+        s0, s1 = {"s0=(M-1)*s1": ((M - 1) * base, base), "s1=(M-1)*s0": (base, (M - 1) * base), "s0=s1*2": (2 * base, base)}[rel]
+    return {"mu0": draw(st.one_of(st.just(0.0), st.floats(-10, 10).map(lambda v: v * d))), "d": d, "s0": s0, "s1": s1, "M": M,
+            "beta": draw(st.floats(-5, 5)) * d, "rel": rel if M > 2 else None}
 
 
 def e_est(c):
@@ -164,6 +170,14 @@ def e_est(c):
         for e_, nm in ((ey, "offset"), (eyb, "shifted")):
             b = float(lib(PPM.BER_analizer, "estimator", eye_obj=e_, M=M, decision=dec))
             check(abs(b - ref) <= 1e-6 * ref + 1e-8, "ppm-estimator!=theory_BER(mu1-mu0)", f"{dec} {nm}: {b} vs {ref}")
+    # an eye that also carries a measured decision threshold (as the eyes returned by GET_EYE do): the estimator still depends on mu1-mu0, s0, s1, M only
+    ey_thr = eye(mu0=mu0, mu1=mu1, s0=s0, s1=s1, threshold=mu0 + 0.31 * d)
+    for dec in ("hard", "soft"):
+        ref = float(lib(PPM.theory_BER, d, s0, s1, M, dec))
+        b = float(lib(PPM.BER_analizer, "estimator", eye_obj=ey_thr, M=M, decision=dec))
+        check(abs(b - ref) <= 1e-6 * ref + 1e-8, "ppm-estimator!=theory_BER(mu1-mu0)", f"{dec}, eye with a stored threshold attribute: {b} vs {ref}")
+    check(abs(float(lib(OOK.BER_analizer, "estimator", eye_obj=ey_thr)) - float(lib(OOK.theory_BER, d, s0, s1))) <= 1e-6 * float(lib(OOK.theory_BER, d, s0, s1)) + 1e-300,
+          "ook-estimator!=theory_BER(mu1-mu0)", "eye with a stored threshold attribute")
     thp = float(lib(PPM.THRESHOLD_EST, ey, M))
     check(mu0 - 1e-12 * abs(mu0) <= thp <= mu1 + 1e-12 * abs(mu1), "ppm-threshold-outside-[mu0,mu1]", f"{thp}")
     rs_, _ = true_min(lambda r: hard_f(r, d, s0, s1, M), 0.0, d)
@@ -201,7 +215,7 @@ def e_est(c):
             check(abs(r - want) <= 1e-9 * (abs(mu0) + d), "optimum-threshold-equal-variances", f"{r} vs {want}")
         rb = float(lib(U.optimum_threshold, mu0 + beta, mu1 + beta, S0, S1, mod, MM))
         check(abs((rb - beta) - r) <= 1e-7 * (abs(mu0) + abs(beta) + d), "optimum-threshold-not-shift-equivariant", f"{rb - beta} vs {r}")
-    return {"nontrivial": s0 != s1, "classes": [f"M{M}", "equal-sigma" if s0 == s1 else "unequal-sigma", "offset" if mu0 else "zero-offset"] + crossing}
+    return {"nontrivial": s0 != s1, "classes": [f"M{M}", "equal-sigma" if s0 == s1 else "unequal-sigma", "offset" if mu0 else "zero-offset", "rel:" + str(c.get("rel"))] + crossing}
 
 
 # --------------------------------------------------------------------------------------------------
